@@ -66,6 +66,12 @@ APIS = {
     'deepcopy_with': lambda c: fdl.deepcopy_with(c),
     'copy.copy': copy.copy,
     'copy.deepcopy': copy.deepcopy,
+    # copy-returning APIs followed by updates of the *copy* (values, tagged values on arguments that
+    # already carry tags, tag edits on every Buildable of a deep copy): the input stays as it was
+    'copy_with(update)': lambda c: fdl.copy_with(c, **_updates(c)),
+    'deepcopy_with(update)': lambda c: fdl.deepcopy_with(c, **_updates(c)),
+    'deepcopy + tag edits on the copy': lambda c: _tag_edit_all(copy.deepcopy(c)),
+    'cast + tag edits on the copy': lambda c: _tag_edit_top(fdl.cast(type(c), c)),
     'materialize_tags': tagging.materialize_tags,
     'materialize_tags(clear)': lambda c: tagging.materialize_tags(c, tags={pool.TagA}, clear_field_tags=True),
     'clear_argument_history': lambda c: __import__('fiddle._src.mutate_buildable', fromlist=['x']).clear_argument_history(c)
@@ -80,6 +86,40 @@ APIS = {
     'unintern_tuples_of_literals': transform.unintern_tuples_of_literals,
     'replace_unconfigured_partials': transform.replace_unconfigured_partials_with_callables,
 }
+
+
+def _updates(c):
+  """Keyword updates for copy_with / deepcopy_with: a tagged value for an argument that already
+  carries tags (if any), a plain value for another named argument."""
+  if not isinstance(c, fdl.Buildable):
+    return {}
+  out = {}
+  tagged = [k for k, ts in c.__argument_tags__.items() if isinstance(k, str) and ts]
+  if tagged:
+    out[tagged[0]] = pool.TagB.new('tagged-update')
+  named = [k for k in c.__arguments__ if isinstance(k, str) and k not in out]
+  if named:
+    out[named[0]] = 'plain-update'
+  return out
+
+
+def _tag_edit_top(b):
+  if isinstance(b, fdl.Buildable):
+    for k in [k for k in list(b.__argument_tags__) + list(b.__arguments__) if isinstance(k, str)]:
+      try:
+        fdl.add_tag(b, k, pool.TagB)
+        fdl.add_tag(b, k, pool.TagA2)
+        fdl.remove_tag(b, k, pool.TagB)
+      except Exception:   # pylint: disable=broad-except
+        pass
+  return b
+
+
+def _tag_edit_all(root):
+  _, keep = canon.mutable_ids(root)
+  for b in keep:
+    _tag_edit_top(b)
+  return root
 
 
 def _baseline(c):
